@@ -58,8 +58,9 @@ type script struct {
 	Name     string   `json:"name"`
 	Etcd     bool     `json:"etcd"`
 	StartErr bool     `json:"start_err"`
-	Keys0    []int    `json:"keys0,omitempty"`   // etcd: registered before helium.New
-	Between  []action `json:"between,omitempty"` // etcd: put/del executed after the stream's Watch, before its Get
+	Keys0    []int    `json:"keys0,omitempty"`    // etcd: registered before helium.New
+	PreWatch []action `json:"prewatch,omitempty"` // etcd: put/del executed when the stream calls Watch, before the watch exists
+	Between  []action `json:"between,omitempty"`  // etcd: put/del executed after the stream's Watch, before its Get
 	Acts     []action `json:"actions"`
 }
 
@@ -112,12 +113,19 @@ func addrOrd(s string) int {
 // ServiceStatusStream and RegisterService use); everything else passes through.
 type prefixKV struct {
 	meta.KV
-	p      string
-	once   sync.Once
-	preGet func() // runs inside the first Get: ServiceStatusStream has its watch by then
+	p        string
+	once     sync.Once
+	preGet   func() // runs inside the first Get: ServiceStatusStream has its watch by then
+	onceW    sync.Once
+	preWatch func() // runs inside the first Watch call, before the watch is requested
 }
 
 func (k *prefixKV) Watch(ctx context.Context, key string, opts ...clientv3.OpOption) clientv3.WatchChan {
+	k.onceW.Do(func() {
+		if k.preWatch != nil {
+			k.preWatch()
+		}
+	})
 	return k.KV.Watch(ctx, k.p+key, opts...)
 }
 func (k *prefixKV) Get(ctx context.Context, key string, opts ...clientv3.OpOption) (*clientv3.GetResponse, error) {
@@ -260,6 +268,11 @@ func runScript(sc script, mercury *etcdv3.Mercury) (res result) {
 		if pk, ok := mercury.KV.(*prefixKV); ok {
 			pk.preGet = func() {
 				for _, a := range sc.Between {
+					kvop(a)
+				}
+			}
+			pk.preWatch = func() {
+				for _, a := range sc.PreWatch {
 					kvop(a)
 				}
 			}
@@ -467,16 +480,19 @@ func coqCase(res result) string {
 		}
 		return "[" + strings.Join(s, ";") + "]"
 	}
-	btw := make([]string, len(res.Script.Between))
-	for i, a := range res.Script.Between {
-		if a.Kind == "put" {
-			btw[i] = fmt.Sprintf("Put %d", a.Addr)
-		} else {
-			btw[i] = fmt.Sprintf("Del %d", a.Addr)
+	kvs := func(as []action) string {
+		out := make([]string, len(as))
+		for i, a := range as {
+			if a.Kind == "put" {
+				out[i] = fmt.Sprintf("Put %d", a.Addr)
+			} else {
+				out[i] = fmt.Sprintf("Del %d", a.Addr)
+			}
 		}
+		return strings.Join(out, ";")
 	}
-	return fmt.Sprintf("(mkCase %s %s %s [%s] [%s] %s %s)", vh.Bool(res.Script.StartErr), vh.Bool(res.Script.Etcd),
-		coqAset(res.Script.Keys0), strings.Join(btw, ";"),
+	return fmt.Sprintf("(mkCase %s %s %s [%s] [%s] [%s] %s %s)", vh.Bool(res.Script.StartErr), vh.Bool(res.Script.Etcd),
+		coqAset(res.Script.Keys0), kvs(res.Script.PreWatch), kvs(res.Script.Between),
 		strings.Join(slots, ";\n    "), bl(res.FinClosed), bl(res.FinUnsub))
 }
 
@@ -554,9 +570,9 @@ func corpusEtcd() []script {
 	return []script{
 		{Name: "etcd-basic", Etcd: true, Acts: []action{sub(true), put(1), put(2), wait, del(1), wait, on("cancelunsub", 0), wait}},
 		// changes committed between the stream's Watch and its Get are seen by the Get AND replayed by the watch
-		{Name: "etcd-watch-get-window", Etcd: true, Keys0: []int{1, 2}, Between: []action{put(3), del(1), put(1), del(2)},
+		{Name: "etcd-watch-get-window", Etcd: true, Keys0: []int{1, 2}, PreWatch: []action{put(7), del(2), put(2)}, Between: []action{put(3), del(1), put(1), del(2)},
 			Acts: []action{sub(true), wait, put(2), wait, on("cancelunsub", 0), wait}},
-		{Name: "etcd-window-put-del", Etcd: true, Keys0: []int{4}, Between: []action{put(5), del(5), del(4)},
+		{Name: "etcd-window-put-del", Etcd: true, Keys0: []int{4}, PreWatch: []action{put(8)}, Between: []action{put(5), del(5), del(4)},
 			Acts: []action{sub(true), wait, put(6), wait, on("cancelunsub", 0), wait}},
 		{Name: "etcd-reregister", Etcd: true, Acts: []action{put(3), sub(true), wait, put(3), del(3), put(3), wait, sub(true), put(4), wait, on("cancelunsub", 0), on("cancelunsub", 1), wait}},
 	}
@@ -606,6 +622,9 @@ func (g gen) script(name string, etcd bool, allowStall bool) script {
 				sc.Keys0 = append(sc.Keys0, x)
 				cur[x] = true
 			}
+		}
+		for i := g.rng.Intn(3); i > 0; i-- {
+			sc.PreWatch = append(sc.PreWatch, change())
 		}
 		for i := g.rng.Intn(4); i > 0; i-- {
 			sc.Between = append(sc.Between, change())
